@@ -105,7 +105,7 @@ def low_level(sign: bool, mangles: list[t.Optional[t.Callable[[bytes, list[bytes
     outs = []
     for i in range(len(mangles)):
         try:
-            with taps.time_limit(20):
+            with taps.time_limit(60):
                 resp = client.request(0, 0, _get_key_stub(3, 4 + i), verification_trailer=vt)
             outs.append("authentic" if resp.stub_data == conn.last_plain_body else "different")
         except MachineryError:
